@@ -2,7 +2,7 @@ from .. import solverplan, oracles
 ID = 'C03'
 LEVEL = 'exploration'
 REQUIRED_PROBES = ['c03.evals_checked_against_constraint']
-RUNS = {'quick': 1500, 'thorough': 40000}
+RUNS = {'quick': 1500, 'thorough': 120000}
 WALL = {'quick': 120, 'thorough': 1500}
 REAL = ["mystic solvers, tools.wrap_*, constraints.and_/boundsconstrain, symbolic bounds (sympy), termination, monitors"]
 STUB = ["cost, constraints, penalty, callback (scripted peers)", "clocks", "signal/tty", "file open() proxy"]
